@@ -124,7 +124,7 @@ class Exec:
 
     # ------------------------------------------------------------------ expressions
     def truth(self, st, v):
-        if v.kind == 'bool':
+        if v.kind in ('bool', 'truthonly'):
             return v.t
         if v.kind == 'int':
             return v.t != 0
@@ -273,7 +273,8 @@ class Exec:
                 elif is_false(ts):
                     m = res
                 else:
-                    raise OutOfSubset('and/or over values of different shape: %s' % ast.unparse(e)[:60])
+                    # operands of different shape: only the truth value of the whole expression is representable
+                    return SV('truthonly', And(*terms) if isand else Or(*terms))
             res = m
         return res
 
